@@ -402,6 +402,35 @@ func runC05(e *Env) error {
 			return nil
 		}
 	}
+	// (a6) integer arguments at the ends of the 64- and 32-bit ranges in every filter / function / test that takes a number
+	{
+		bigs := []string{"9223372036854775807", "(0 - 9223372036854775807)", "(0 - 9223372036854775807 - 1)", "4294967296", "2147483648", "(0 - 2147483649)", "1e308", "(0 - 1e308)", "0", "(0 - 1)"}
+		forms := []string{"{{ 1.5|round(B) }}", "{{ 1234.5678|round(B, 'ceil') }}", "{{ B|round(2) }}", "{{ 2.5|number_format(B) }}", "{{ B|number_format(2) }}", "{{ 'abcdef'|slice(B) }}", "{{ 'abcdef'|slice(1, B) }}", "{{ 'abcdef'|slice(B, B) }}",
+			"{{ [1, 2, 3]|slice(B, 2)|join }}", "{{ [1, 2, 3]|slice(0, B)|join }}", "{{ 'a,b,c'|split(',', B)|join('|') }}", "{{ cycle([1, 2, 3], B) }}", "{{ random(B) is defined }}", "{{ random(B, 5) is defined }}", "{{ random(1, B) is defined }}",
+			"{{ random(B, B) is defined }}", "{{ range(B, 3)|length }}", "{{ range(1, 3, B)|length }}", "{{ range(B, B)|length }}", "{{ 'x%dy'|format(B) }}", "{{ B|abs }}", "{{ B is even }}{{ B is odd }}{{ B is divisible_by(3) }}{{ 7 is divisible_by(B) }}",
+			"{{ B + B }}{{ B * B }}{{ B - B }}{{ B % 7 }}{{ 7 % B }}{{ B ^ 2 }}{{ 2 ^ B }}", "{{ B / 3 }}{{ 3 / B }}", "{{ [1, 2, 3][B] is defined }}", "{{ 'abc'[B] is defined }}", "{{ B|date('Y') is defined }}", "{{ date(B)|length > 0 }}",
+			"{{ max(B, 1) }}{{ min(B, 1) }}", "{{ [3, 1, 2]|first(B) is defined }}", "{{ 'abc'|truncate(B) is defined }}", "{{ B|json_encode }}", "{{ B ~ '' }}{{ B|length }}{{ B in [B] }}", "{% for i in range(1, 3, B) %}x{% endfor %}", "{{ 'ab'|repeat(B) is defined }}"}
+		for _, f := range forms {
+			for _, bg := range bigs {
+				src := strings.ReplaceAll(f, "B", bg)
+				breadcrumb("src", map[string]any{"src": src})
+				res := guardedTimeout(5*time.Second, func() (string, error) {
+					eng := twig.New()
+					if err := eng.RegisterString("main", src); err != nil {
+						return "", fmt.Errorf("parsing error: %w", err)
+					}
+					return eng.Render("main", ctx)
+				})
+				r.Seen("extreme:"+src, res.Class != "parse-error")
+				r.Hit("extreme-arg-class:" + res.Class)
+				if res.Class == "panic" || res.Class == "timeout" {
+					if report("panic-or-hang-source", fmt.Sprintf("template source %q: %s %s", src, res.Class, truncate(res.Panic, 300)), map[string]any{"kind": "src", "src_hex": hx(src), "class": res.Class, "panic": res.Panic}) {
+						return nil
+					}
+				}
+			}
+		}
+	}
 	// (b) zoo
 	zoo := zooValues()
 	names := sortedKeys(zoo)
